@@ -212,6 +212,44 @@ fn new_stored_signer(n: usize, clock: &Clock) -> Option<Signer> {
       AnyDoc::Iota(_) => {}
     }
   }
+  if ctx::chance(1, 3) {
+    // Key rotation under one fragment: the first #key was referenced from authentication and keyAgreement; it is
+    // purged (key, key id, method and all its references) and a new #key is generated that is referenced from
+    // authentication only (or from nothing).
+    use identity_verification::MethodRelationship as R;
+    let id = format!("{}#key", p.did);
+    let url = identity_did::DIDUrl::parse(&id).ok()?;
+    let reattach = ctx::choose(2) == 0;
+    let st = &p.storage;
+    let ok = match &mut p.doc {
+      AnyDoc::Core(d) => {
+        let _ = d.attach_method_relationship(id.as_str(), R::Authentication);
+        let _ = d.attach_method_relationship(id.as_str(), R::KeyAgreement);
+        block_on(d.purge_method(st, &url)).is_ok()
+      }
+      AnyDoc::Iota(d) => {
+        let _ = d.attach_method_relationship(id.as_str(), R::Authentication);
+        let _ = d.attach_method_relationship(id.as_str(), R::KeyAgreement);
+        block_on(d.purge_method(st, &url)).is_ok()
+      }
+    };
+    if !ok {
+      return None;
+    }
+    p.methods.retain(|m| m.0 != "key");
+    p.gen_method("key", None).ok()?;
+    if reattach {
+      match &mut p.doc {
+        AnyDoc::Core(d) => {
+          let _ = d.attach_method_relationship(id.as_str(), R::Authentication);
+        }
+        AnyDoc::Iota(d) => {
+          let _ = d.attach_method_relationship(id.as_str(), R::Authentication);
+        }
+      }
+    }
+    ctx::stat("probe.signer_rotated_under_same_fragment");
+  }
   // a second method for the separation checks
   p.gen_method("second", Some(1)).ok()?;
   let jwk = p
@@ -376,15 +414,20 @@ fn produce(signers: &[Signer], events: &mut Vec<SignEvent>, ser: Ser) -> Option<
   }
   order.truncate(n_signers);
   let signed_payload: Vec<u8> = if b64_flag { b64(&raw).into_bytes() } else { raw.clone() };
-  // all recipients of one token spell b64 the same way (the general encoder demands consistent b64)
-  let explicit_b64_true = b64_flag && ctx::choose(4) == 0;
-  if explicit_b64_true {
-    ctx::stat("probe.b64_explicit_true");
-  }
+  // all recipients of one token agree on the VALUE of b64 (the general encoder demands it); each may spell the default
+  // out ("b64": true, marked critical) or leave it out
+  let mut mixed_spelling = (false, false);
   let mut parts: Vec<SigPart> = Vec::new();
   let headers: Vec<(JwsHeader, Option<JwsHeader>, Value, Option<Value>)> = order
     .iter()
     .map(|si| {
+      let explicit_b64_true = b64_flag && ctx::choose(4) == 0;
+      if explicit_b64_true {
+        ctx::stat("probe.b64_explicit_true");
+        mixed_spelling.0 = true;
+      } else {
+        mixed_spelling.1 = true;
+      }
       let hj = header_json(&signers[*si], b64_flag, explicit_b64_true, &nonce, ctx::choose(2) == 0);
       let uj = if ser != Ser::Compact && ctx::choose(2) == 0 {
         Some(serde_json::json!({"simUnprotected": format!("u{}", ctx::choose(50))}))
@@ -485,6 +528,9 @@ fn produce(signers: &[Signer], events: &mut Vec<SignEvent>, ser: Ser) -> Option<
       };
       if order.len() > 1 {
         ctx::stat("probe.general_multi_signer");
+        if mixed_spelling == (true, true) {
+          ctx::stat("probe.general_recipients_spell_b64_differently");
+        }
       }
       ready.into_jws().ok()?
     }
@@ -987,16 +1033,39 @@ fn view(ser: Ser, wire: &str, detached: &Option<Vec<u8>>) -> Option<ReceivedView
   }
 }
 
-fn receive(prop: &str, signers: &[Signer], events: &[SignEvent], n: &Notice, d: &Delivered) {
+fn receive(prop: &str, signers: &[Signer], events: &[SignEvent], n: &Notice, d: &Delivered, trust_label: Option<&str>) {
   let rec = RecordingVerifier { log: RefCell::new(Vec::new()) };
   let decoder = Decoder::new();
   let detached_ref: Option<&[u8]> = d.detached.as_deref();
   // decode + verify every signature with the key of the signer the receiver expects at that position
   let mut outcomes: Vec<Result<(Vec<u8>, Value, Option<Value>), String>> = Vec::new();
   let expected_signers: Vec<usize> = n.parts.iter().map(|p| p.signer).collect();
+  let wrong_key: RefCell<Vec<bool>> = RefCell::new(Vec::new());
   let mut verify_item = |item: identity_jose::jws::JwsValidationItem<'_>, idx: usize| -> Result<(Vec<u8>, Value, Option<Value>), String> {
-    let si = expected_signers.get(idx).copied().unwrap_or(expected_signers[0]);
-    let jwk: Jwk = serde_json::from_value(signers[si].jwk.clone()).map_err(|e| e.to_string())?;
+    let mut si = expected_signers.get(idx).copied().unwrap_or(expected_signers[0]);
+    // a receiver that (mis)uses the key of ANOTHER signer of the same algorithm: verification must fail
+    let mut wrong = false;
+    if ctx::chance(1, 10) {
+      let others: Vec<usize> = (0..signers.len()).filter(|o| *o != si && signers[*o].alg == signers[si].alg && signers[*o].jwk != signers[si].jwk).collect();
+      if !others.is_empty() {
+        si = others[ctx::choose(others.len())];
+        wrong = true;
+        ctx::stat("fault.receiver.uses_other_signers_key");
+      }
+    }
+    {
+      let mut w = wrong_key.borrow_mut();
+      while w.len() <= idx {
+        w.push(false);
+      }
+      w[idx] = wrong;
+    }
+    let mut key_json = signers[si].jwk.clone();
+    if let Some(label) = trust_label {
+      // the receiver's trust store files every key under its own label (kid is metadata, not key material)
+      key_json["kid"] = label.into();
+    }
+    let jwk: Jwk = serde_json::from_value(key_json).map_err(|e| e.to_string())?;
     let decoded = item.verify(&rec, &jwk).map_err(|e| e.to_string())?;
     Ok((
       decoded.claims.to_vec(),
@@ -1078,8 +1147,18 @@ fn receive(prop: &str, signers: &[Signer], events: &[SignEvent], n: &Notice, d: 
   // ---- per signature verdicts ----
   // a part whose header names an algorithm of another family than its signer's key is a Byzantine production
   let byzantine_alg = n.parts.iter().any(|p| p.protected.get("alg").and_then(|a| a.as_str()) != Some(signers[p.signer].alg));
-  let tampered = d.mv != Move::Intact || byzantine_alg;
+  let tampered_base = d.mv != Move::Intact || byzantine_alg;
   for (i, o) in outcomes.iter().enumerate() {
+    let wrong = wrong_key.borrow().get(i).copied().unwrap_or(false);
+    let tampered = tampered_base || wrong;
+    if wrong && o.is_ok() {
+      ctx::violation(
+        "C01",
+        "C01.verified_only_if_check_succeeded",
+        format!("{ser_name}/verified-under-another-signers-key"),
+        "token reported verified under the key of a signer that did not sign it",
+      );
+    }
     match o {
       Ok((claims, protected, unprotected)) => {
         ctx::stat("probe.verified_ok");
@@ -1089,13 +1168,19 @@ fn receive(prop: &str, signers: &[Signer], events: &[SignEvent], n: &Notice, d: 
           ctx::violation("C01", "C01.verified_only_if_check_succeeded", format!("{ser_name}/{:?}/no-successful-check", d.mv), "token reported verified but no verifier call succeeded");
         }
         // a matching honest signing event exists for exactly the verified bytes
-        let honest = log.iter().filter(|r| r.ok).any(|r| events.iter().any(|e| e.signing_input == r.signing_input && e.signature == r.signature));
+        // ... made with the key the caller supplied (key material, not labels)
+        let material = |k: &Value| (k["kty"].clone(), k["crv"].clone(), k["x"].clone(), k["y"].clone());
+        let honest = log.iter().filter(|r| r.ok).any(|r| {
+          events
+            .iter()
+            .any(|e| e.signing_input == r.signing_input && e.signature == r.signature && material(&signers[e.signer].jwk) == material(&r.key))
+        });
         if !honest {
           ctx::violation(
             "C01",
             "C01.verified_only_if_check_succeeded",
             format!("{ser_name}/{:?}/no-honest-signing-event", d.mv),
-            "token reported verified although no signer ever signed these bytes",
+            "token reported verified although the holder of the caller's key never signed these bytes",
           );
         }
         // the algorithm of the protected header must be one the caller's key can be used with at all
@@ -1203,6 +1288,7 @@ fn receive(prop: &str, signers: &[Signer], events: &[SignEvent], n: &Notice, d: 
       }
     }
   }
+  let tampered = tampered_base;
   if outcomes.is_empty() {
     match (&decode_result, tampered) {
       (Err(e), false) => {
@@ -1310,6 +1396,8 @@ pub fn run(prop: &str, _params: &Params) {
     return;
   }
   let faulty_storage = prop == "C08" && ctx::choose(2) == 0;
+  // one receiver in three files all trusted keys under one label of its own (unique per run)
+  let trust_label: Option<String> = if ctx::chance(1, 3) { Some(format!("trusted-{:08x}", ctx::choose(1 << 30))) } else { None };
   let mut events: Vec<SignEvent> = Vec::new();
   let mut notices: Vec<Notice> = Vec::new();
   let count = 3 + ctx::choose(8);
@@ -1390,7 +1478,7 @@ pub fn run(prop: &str, _params: &Params) {
       ctx::sched("mv", d.mv.clone() as u64);
     }
     ctx::trace(format!("deliver notice {i} {:?}", d.mv));
-    receive(prop, &signers, &events, &n, &d);
+    receive(prop, &signers, &events, &n, &d, trust_label.as_deref());
     if prop == "C08" {
       separation(&signers, &n);
     }
